@@ -60,6 +60,13 @@ var txnGen = rapid.Custom(func(t *rapid.T) Txn {
 			if d != "" {
 				r = l + "+v@" + d
 			}
+		case 2:
+			// the same local part on another vocabulary domain: one mailbox under local
+			// naming, yet possibly another accept/store verdict
+			l, d := hx.SplitAddr(r)
+			if d != "" {
+				r = l + "@" + rapid.SampledFrom(hx.Domains).Draw(t, "otherdom")
+			}
 		}
 		x.Rcpts = append(x.Rcpts, r)
 	}
